@@ -24,7 +24,7 @@ CHECKS = {
                        "multistore and tendermint block store (black-box observation of the claim-acceptance heights and of the entropy block), plus rapid property test of PseudorandomSelection",
              design_ref="DESIGN.md §7 C31",
              exhaustive=True,
-             level_text="The grid {pre-upgrade, post-upgrade} x b=1..12 x w=2..6 x 3 session starts x every claim height from session start to start+(w+2)b is enumerated completely "
+             level_text="The grid {pre-upgrade, post-upgrade} x b=1..12 x w=2..6 x 3 session starts (thorough tier: b=1..16, w=2..8, 5 session starts) x every claim height from session start to start+(w+2)b is enumerated completely "
                         "(exhaustive refers to this grid only); the selection function itself is explored with random seeds/maxima, no absence claim outside the grid.",
              level_note="'Known to a tx author' is modelled as: a tx included in block h is authored knowing the hashes of all blocks < h (block h's header carries hash(h-1)). "
                         "Acceptance = ValidateClaim on the DeliverTx context of block h; entropy block = the unique block whose hash passes ValidateProof's index check under the documented "
